@@ -11,6 +11,8 @@ Ties (all against the working tree of /repo):
      `std.from_bits[T](b)` walked field by field, `std.to_bits` of that object, and `std.to_bits` of the same
      value built with the ordinary constructors (no from_bits involved) through EVERY construction path of records
      (PY_MODES: keywords in / out of declaration order, positional, mixed, copy) - each compared bit by bit with the model.
+ (a2) record class hierarchies (base .. derived, nesting record, array of derived) in one module / interpreter, every order of
+     first use x first operation (count_bits / to_bits / from_bits): the documented result after every single operation.
  (b) through the compiler: an entity `inp -> from_bits[T] -> leaves on ports, -> to_bits -> rt` and
      `leaf ports -> constructors (every construction path, plus field-wise assignment to a default-constructed
      Variable, T(Null), T(Full)) -> to_bits -> ser / ser_<path>` is compiled, the emitted VHDL simulated on all / sampled
@@ -102,7 +104,8 @@ def ty_short(ty):
         return f"{k}[{ty_short(ty[1])},{ty[2]}]"
     if k == "rec":
         st = ty[3]
-        tag = {"flat": "", "inherit": "i" + ".".join(map(str, st[1:])), "template": f"t{st[1] if len(st) > 1 else ''}"}[st[0]]
+        tag = {"flat": "", "inherit": "i" + ".".join(map(str, st[1:])), "template": f"t{st[1] if len(st) > 1 else ''}",
+               "tinherit": "ti" + ".".join(map(str, st[1:]))}[st[0]]
         return f"rec{tag}(" + ",".join(ty_short(f) for f in ty[2]) + ")"
     if k == "enum":
         return f"{'flag' if ty[4] else 'enum'}<{ty_short(ty[2])}>{{{','.join(map(str, ty[3]))}}}"
@@ -241,6 +244,20 @@ def class_defs(ty, out):
 
             out.append(f"class {name}_W(int):\n    pass")
             out.append(f"class {name}_T(std.Record[{name}_W]):\n" + "\n".join(f"    f{i}: {fexpr(f)}" for i, f in enumerate(fields)))
+            out.append(f"{name} = {name}_T[{kk}]")
+        elif style[0] == "tinherit":
+            # a templated base DECLARATION and a record derived from it that adds fields; both specialised with the same argument
+            kk, cut = style[1], max(1, min(style[2], len(fields)))
+
+            def fexpr(f):
+                if f[0] in ("bv", "uns", "sgn") and f[1] == kk:
+                    return {"bv": "BitVector", "uns": "Unsigned", "sgn": "Signed"}[f[0]] + f"[{name}_W]"
+                return pyexpr(f)
+
+            out.append(f"class {name}_W(int):\n    pass")
+            out.append(f"class {name}_b0_T(std.Record[{name}_W]):\n" + "\n".join(f"    f{i}: {fexpr(fields[i])}" for i in range(cut)))
+            out.append(f"class {name}_T({name}_b0_T):\n" + ("\n".join(f"    f{i}: {fexpr(fields[i])}" for i in range(cut, len(fields))) or "    pass"))
+            out.append(f"{name}_b0 = {name}_b0_T[{kk}]")
             out.append(f"{name} = {name}_T[{kk}]")
 
 
@@ -778,7 +795,7 @@ class Gen:
         deep = rng.randrange(k)
         for i, b in enumerate(budgets):
             fields.append(self.ty(depth - 1 if (i == deep or rng.random() < 0.3) else 0, b))
-        style = rng.choice(["flat", "flat", "inherit", "inherit", "template"])
+        style = rng.choice(["flat", "flat", "inherit", "inherit", "inherit", "template", "tinherit"])
         if style == "inherit":
             ncuts = rng.randint(1, 2)
             # split points may coincide with 0 < c <= k (an empty derived class) but the first base needs a field
@@ -786,6 +803,9 @@ class Gen:
         elif style == "template":
             ws = [f[1] for f in fields if f[0] in ("bv", "uns", "sgn")]
             st = ["template", rng.choice(ws) if ws else 1]
+        elif style == "tinherit":
+            ws = [f[1] for f in fields if f[0] in ("bv", "uns", "sgn")]
+            st = ["tinherit", rng.choice(ws) if ws else 1, rng.randint(1, k)]
         else:
             st = ["flat"]
         return ["rec", self.name("R"), fields, st]
@@ -1176,6 +1196,152 @@ def co_types():
 
 
 # ---------------------------------------------------------------------------------------------------
+# record class hierarchies x orders of first use (the per-class caches `_cohdlstd_bitcount` / `_cohdlstd_slice_map`):
+# every class of a hierarchy (base .. derived), a record nesting the derived record and an array of it live in ONE module and
+# are used in ONE interpreter in different orders (base first / derived first, count_bits / to_bits / from_bits first);
+# after every single operation the result must be the documented one for THAT class
+# ---------------------------------------------------------------------------------------------------
+
+FAM_OPS = ["count", "to_bits", "from_bits", "count_inst"]
+
+
+def hierarchy_levels(t):
+    """the descriptors of every class of the chain a record is declared through (base first, t itself last)"""
+    name, fs, st = t[1], t[2], t[3]
+    if st[0] == "inherit":
+        return [["rec", f"{name}_b{j}", fs[:c], ["flat"]] for j, c in enumerate(st[1:])] + [t]
+    if st[0] == "tinherit":
+        return [["rec", f"{name}_b0", fs[:max(1, min(st[2], len(fs)))], ["flat"]], t]
+    return [t]
+
+
+def family_members(t):
+    """[descriptor]: the chain, a record nesting the most derived record between two other fields, an array of it"""
+    lv = hierarchy_levels(t)
+    wrap = ["rec", f"{t[1]}_w", [["bit"], t, ["uns", 2]], ["flat"]]
+    return lv + [wrap, ["sarr", t, 2]], wrap
+
+
+def family_source(t):
+    members, wrap = family_members(t)
+    defs, seen = [], set()
+    tmp = []
+    class_defs(wrap, tmp)
+    for d in tmp:
+        if d not in seen:
+            seen.add(d)
+            defs.append(d)
+    return HEADER + "\n\n" + "\n\n".join(defs) + "\n"
+
+
+def fam_pattern(W, which):
+    a = ("10" * W)[:W]
+    return a if which == 0 else "".join("1" if c == "0" else "0" for c in a)
+
+
+def family_scenarios(n_members, rng, n_random):
+    """[(tag, [(member, op)])]: interleaved (one first operation per member in the given order, then everything else) and
+    member-complete (all operations of one member, then the next) shapes; orders: base first, derived first, random"""
+    base_first = list(range(n_members))
+    orders = [("basefirst", base_first), ("derivedfirst", base_first[::-1])]
+    for r in range(n_random):
+        o = base_first[:]
+        rng.shuffle(o)
+        orders.append((f"rand{r}", o))
+    out = []
+    for oname, order in orders:
+        for first in FAM_OPS:
+            ops = [first] + [o for o in FAM_OPS if o != first]
+            out.append((f"interleaved:{oname}:{first}", [(m, first) for m in order] + [(m, o) for o in ops[1:] for m in order]))
+            out.append((f"complete:{oname}:{first}", [(m, o) for m in order for o in ops]))
+    return out
+
+
+def fam_task(item):
+    """item = (type, [(member, op)]) -> one result string per operation"""
+    t, steps = item
+    import_cohdl()
+    from cohdl import std, BitVector
+
+    members, _ = family_members(t)
+    mod = load_design_module(family_source(t), tag="c17fam")
+    out = []
+    for n, (m, op) in enumerate(steps):
+        mt = members[m]
+        W = width(mt)
+        try:
+            T = pytype(mt, mod)
+            if op == "count":
+                r = str(int(std.count_bits(T)))
+            elif op == "to_bits":
+                p = fam_pattern(W, 0)
+                r = bits_str(std.to_bits(build(mt, parse_sexp(spec_decode(mt, p)), mod))) + " " + str(int(std.count_bits(T)))
+            elif op == "from_bits":
+                x = std.from_bits[T](BitVector[W](fam_pattern(W, 1)))
+                r = walk(mt, x, mod) + " " + bits_str(std.to_bits(x))
+            else:
+                r = str(int(std.count_bits(build(mt, parse_sexp(spec_decode(mt, fam_pattern(W, 1))), mod))))
+        except BaseException as e:  # noqa
+            r = "!" + classify(e)
+        out.append(r)
+    return out
+
+
+def check_families(fams, rng, n_random):
+    """-> per family [(tag, steps, index of the first failing step, expected, observed)]"""
+    reqs = []
+    for t in fams:
+        for mt in family_members(t)[0]:
+            reqs += [f"count {ty_sexp(mt)}", f"frombits {ty_sexp(mt)} {fam_pattern(width(mt), 1)}", f"tobits {ty_sexp(mt)} {spec_decode(mt, fam_pattern(width(mt), 0))}"]
+    ans = lean_io.query("C17", reqs)
+    items, meta, k = [], [], 0
+    for fi, t in enumerate(fams):
+        members = family_members(t)[0]
+        exp = {}
+        for m, mt in enumerate(members):
+            cnt, val, tb = ans[k], ans[k + 1], ans[k + 2]
+            k += 3
+            W = width(mt)
+            if tb != fam_pattern(W, 0) or cnt != str(W):
+                raise InfraError(f"Lean model and Python spec disagree on {ty_sexp(mt)}")
+            exp[(m, "count")] = cnt
+            exp[(m, "to_bits")] = tb + " " + cnt
+            exp[(m, "from_bits")] = val + " " + fam_pattern(W, 1)
+            exp[(m, "count_inst")] = cnt
+        for tag, steps in family_scenarios(len(members), rng, n_random):
+            items.append((t, steps))
+            meta.append((fi, tag, steps, [exp[st] for st in steps]))
+    res = fork_map(fam_task, items, fresh=False, chunk=8)
+    out = [[] for _ in fams]
+    for (fi, tag, steps, exp), r in zip(meta, res):
+        if r[0] != "ok":
+            out[fi].append((tag, steps, 0, "runs", r[1][:200]))
+            continue
+        bad = [i for i, (a, b) in enumerate(zip(exp, r[1])) if a != b]
+        if bad:
+            out[fi].append((tag, steps, bad[0], exp[bad[0]], r[1][bad[0]]))
+    return out
+
+
+def fixed_families():
+    return [
+        ["rec", "H1", [["bit"], ["uns", 2], ["sgn", 4]], ["inherit", 2]],                      # Header(bit, uns2) <- Packet(+sgn4)
+        ["rec", "H2", [["bit"], ["bv", 2], ["uns", 3]], ["inherit", 1, 2]],                    # two levels, every level adds a field
+        ["rec", "H3", [["uns", 2], ["bit"]], ["inherit", 1, 2]],                               # most derived class adds nothing
+        ["rec", "H4", [["bit"], ["bv", 3], ["uns", 3]], ["tinherit", 3, 1]],                   # templated base declaration, derived adds fields
+        ["rec", "H5", [["rec", "H5i", [["bit"], ["uns", 2]], ["inherit", 1]], ["sarr", ["bit"], 2], ["bv", 2]], ["inherit", 1]],   # derived nests a derived
+    ]
+
+
+def gen_family(g, rng, maxw):
+    for _ in range(50):
+        t = g.rec(rng.randint(1, 2), maxw)
+        if t[3][0] in ("inherit", "tinherit") and len(t[2]) >= 2:
+            return t
+    return None
+
+
+# ---------------------------------------------------------------------------------------------------
 # shrinking a failing type
 # ---------------------------------------------------------------------------------------------------
 
@@ -1213,6 +1379,8 @@ def shrink_candidates(ty):
                 if st[0] == "inherit":
                     cuts = sorted(max(1, min(len(rest), c - (1 if c > i else 0))) for c in st[1:])
                     yield ["rec", name, rest, ["inherit"] + cuts]
+                elif st[0] == "tinherit":
+                    yield ["rec", name, rest, ["tinherit", st[1], max(1, min(len(rest), st[2] - (1 if st[2] > i else 0)))]]
                 else:
                     yield ["rec", name, rest, st]
         for i, f in enumerate(fs):
@@ -1666,6 +1834,31 @@ def report_type_failure(ctx, level, t, mm, bound, src=None):
                            "source": entity_source(small) if level == "sim" else type_module_source(small[1] if small[0] == "ser" else small)})
 
 
+def report_family_failure(ctx, t, mm):
+    def fails_with(c):
+        if c[0] != "rec" or c[3][0] not in ("inherit", "tinherit") or len(c[2]) < 2:
+            return None
+        try:
+            r = check_families([c], __import__("random").Random(0), 1)[0]
+        except InfraError:
+            return None
+        return r or None
+
+    small = shrink_type(t, lambda c: bool(fails_with(c)), budget=25)
+    mm2 = fails_with(small) if small is not t else mm
+    mm2 = mm2 or mm
+    tag, steps, i, exp, obs = min(mm2, key=lambda m: m[2])
+    members = family_members(small if mm2 is not mm else t)[0]
+    tt = small if mm2 is not mm else t
+    m, op = steps[i]
+    hist = " ; ".join(f"{o}({ty_short(members[mm_])})" for mm_, o in steps[: i + 1])
+    ctx.report(f"fam:{ty_short(tt)}:{op}:{ty_short(members[m])}:{tag}",
+               f"record hierarchy {ty_short(tt)}: after the operations [{hist}] in one interpreter, {op} of {ty_short(members[m])} gives `{obs}`, "
+               f"documented: `{exp}` ({len(mm2)} failing orders of first use)",
+               {"level": "fam", "type": tt, "order": tag, "steps": [[a, b] for a, b in steps[: i + 1]], "members": [ty_short(x) for x in members],
+                "op": op, "member": ty_short(members[m]), "expected": exp, "observed": obs, "source": family_source(tt)})
+
+
 def bf_chain(d, expr):
     """the bitfield reduced to the single chain of declarations that leads to the leaf with access expression expr"""
     idx = [int(x[1:]) for x in expr.split(".") if x]
@@ -1771,6 +1964,28 @@ def run(ctx: Ctx):
     ctx.obligation("correspondence (b): emitted round-trip entity (from_bits leaves, to_bits of from_bits, to_bits of constructed value) = Lean model on all driven patterns",
                    n_sim == 0, detail=f"{len(types)} designs, {n_sim} mismatches")
 
+    # ---- class hierarchies x orders of first use
+    fams = fixed_families()
+    for _ in range(ctx.scale(8, 60)):
+        t = gen_family(g, rng, rng.randint(4, 9))
+        if t is not None:
+            fams.append(t)
+    fmm = check_families(fams, rng, ctx.scale(1, 4))
+    n_fam = 0
+    n_scen = 0
+    for t, mm in zip(fams, fmm):
+        nm = len(family_members(t)[0])
+        n_scen += len(family_scenarios(nm, __import__("random").Random(0), ctx.scale(1, 4)))
+        ctx.case(key=("fam", ty_short(t)), nontrivial=True, kind="level:hierarchy-order")
+        ctx.dist["hierarchy:" + t[3][0]] += 1
+        n_fam += len(mm)
+    failing = sorted([(t, mm) for t, mm in zip(fams, fmm) if mm], key=lambda x: size_of(x[0]))
+    for t, mm in failing[:2]:
+        report_family_failure(ctx, t, mm)
+    ctx.obligation("correspondence (a2): every class of a record hierarchy, a record nesting the derived record and an array of it give the documented "
+                   "count_bits / to_bits / from_bits after EVERY operation, for every order of first use in one interpreter",
+                   n_fam == 0, detail=f"{len(fams)} hierarchies, {n_scen} orders, {n_fam} orders with a wrong result")
+
     # ---- snapshots across coroutine states
     cts = co_types()
     cmm, n_acc = check_coroutine_snapshots(cts)
@@ -1815,6 +2030,12 @@ def replay(ctx, data):
     SIM_ALL_MODES = BF_ALL_FORMS = True
     r = data["replay"]
     rng = __import__("random").Random(0)
+    if r["level"] == "fam":
+        mm = check_families([r["type"]], rng, 2)[0]
+        print("hierarchy:", ty_short(r["type"]), " members:", [ty_short(x) for x in family_members(r["type"])[0]])
+        for tag, steps, i, exp, obs in mm[:8]:
+            print(f"order {tag}: step {i} {steps[i]}: expected {exp} observed {obs}")
+        return 1 if mm else 0
     if r["level"] == "co":
         mm, n_acc = check_coroutine_snapshots([r["type"]])
         print("type     :", ty_short(r["type"]), "accepted" if n_acc else "rejected by the compiler")
